@@ -120,6 +120,17 @@ func forgeAlphabet(cfg histCfg, w *World) []histAnswer {
 			return wrap(s, true, false, s.HS.SIDM, forgedMsg(rx), nil)
 		}),
 	)
+	// signed and encrypted correctly - with the keys of the session that was
+	// opened and closed on this connection before (histCfg.Prior)
+	a = append(a, forgeAns("forged/signed-with-the-previous-sessions-keys", false, func(t *env.Transport, rx *ref.Rx, s *ref.Session) []byte {
+		for id, old := range t.BMC.Sessions {
+			if id != s.HS.SIDC && old.K1 != nil && old.Integ != nil {
+				s.OutSeq++
+				return ref.BuildPacket(ref.PTIPMI, true, s.HS.SIDM, s.OutSeq, ref.AESEncrypt(old.K2, s.NextIV(), forgedMsg(rx)), old.Integ)
+			}
+		}
+		return nil
+	}))
 	// forgeries that need no key at all: authenticated flag set, payload in the
 	// clear, a well-formed trailer whose AuthCode is empty / zeros / ones of
 	// each algorithm's length
@@ -331,7 +342,9 @@ func c04Baseline(cfg histCfg) *histObs {
 
 func runC04(r *rep.R) {
 	r.SetRule("a case is one execution of [command, Close] on a session in which, at a receive point of the command, the honest reply is replaced by one entry of: the forgery catalogue (flags cleared, empty/short/long/zero/wrong-key/wrong-range AuthCode, other session IDs, unsigned plaintext, 6 bad confidentiality pads signed with the real keys), every single-bit flip, or every truncation of the authentic reply; later attempts get the honest reply; k deviations; oracle: result is the authentic value or an error, and a successful call never ends on a forged datagram")
-	suites := []ref.Suite{{1, 1, 1}, {2, 2, 1}, {3, 4, 1}}
+	// the last one names an integrity algorithm (MD5-128) the library does not
+	// implement: it must refuse it, or else verify replies all the same
+	suites := []ref.Suite{{1, 1, 1}, {2, 2, 1}, {3, 4, 1}, {2, 3, 1}}
 	if thorough(r) {
 		suites = append(suites, ref.Suite{1, 4, 1}, ref.Suite{3, 1, 1})
 	}
@@ -342,6 +355,12 @@ func runC04(r *rep.R) {
 			cfg := histCfg{Suite: s, InSession: true, Ops: []int{t, opClose}, Horizon: 2, Alphabet: "forge", MenuOps: []int{0}}
 			// measure the authentic reply's length for the flip/cut menus
 			base := c04Baseline(cfg)
+			if base.HandshakeErr != "" && s.Integ == 3 {
+				// the library refuses a suite whose integrity algorithm it cannot
+				// compute: nothing to forge against
+				r.Outcome("suite-with-unimplemented-integrity-refused")
+				continue
+			}
 			if base.HandshakeErr != "" || len(base.W.T.Log) <= base.HandshakeExchanges {
 				r.Infra("C04 baseline failed: %s", base.HandshakeErr)
 				continue
@@ -362,6 +381,19 @@ func runC04(r *rep.R) {
 			cfg3.FlipLen = 0
 			cfg3.Horizon = 3
 			histExploreWith(r, "C04", cfg3, 2, &idx, c04Judge)
+			if t == opGetDeviceID {
+				// the session under test is the second on its connection
+				cfgP := cfg
+				cfgP.Prior = true
+				cfgP.FlipLen = 0
+				histExploreWith(r, "C04", cfgP, 1, &idx, c04Judge)
+				// commands (and a second Close) on the session object after Close
+				for _, ops := range [][]int{{opGetDeviceID, opClose, opGetDeviceID}, {opGetDeviceID, opClose, opClose}, {opClose, opSetPriv}} {
+					cfgC := cfg
+					cfgC.Ops, cfgC.MenuOps, cfgC.FlipLen = ops, []int{len(ops) - 1}, 0
+					histExploreWith(r, "C04", cfgC, 1, &idx, c04Judge)
+				}
+			}
 			if thorough(r) {
 				if t == opGetDeviceID || t == opPowerReading {
 					// every bit flip / truncation followed by every second deviation
